@@ -6,6 +6,7 @@ CONSTANTS
   WireMode = "ab"
   InitMode = "empty"
   SortPI = FALSE
+  TailIgnored = FALSE
 INVARIANTS
   RoundTripKeys
   CompressDeterministic
